@@ -333,8 +333,60 @@ func (w *World) routerExpandObligations(rt *routerType, prop string) []*Obligati
 			o.Status = "sat"
 			o.Output = fmt.Sprintf("%s holds %s, whose component fields must be expanded, but never calls (*%s).expandComponents", rt.named.Obj().Name(), f.msg.Obj().Name(), f.msg.Obj().Name())
 			o.Model = o.Output
+		} else if why := unexpandedStore(fn, f.msg); why != "" {
+			// the call is there, but not on every path to the store: some messages are stored unexpanded
+			o.Status = "sat"
+			o.Output = fmt.Sprintf("%s: %s", rt.named.Obj().Name(), why)
+			o.Model = o.Output
 		}
 		out = append(out, o)
 	}
 	return out
+}
+
+// unexpandedStore: in router fn, the copy of a message of type msg (a local of that type) is stored into the
+// container (its address is written somewhere) at a point that is not dominated by a call of
+// (*msg).expandComponents on that same copy. Returns "" if every such store is dominated by the call.
+func unexpandedStore(fn *ssa.Function, msg *types.Named) string {
+	type site struct {
+		b *ssa.BasicBlock
+		i int
+	}
+	calls := map[ssa.Value][]site{}
+	for _, b := range fn.Blocks {
+		for i, instr := range b.Instrs {
+			if call, ok := instr.(ssa.CallInstruction); ok {
+				if cf := call.Common().StaticCallee(); cf != nil && cf.Name() == "expandComponents" && cf.Signature.Recv() != nil && len(call.Common().Args) > 0 {
+					if p, ok := cf.Signature.Recv().Type().(*types.Pointer); ok && types.Identical(p.Elem(), msg) {
+						calls[call.Common().Args[0]] = append(calls[call.Common().Args[0]], site{b, i})
+					}
+				}
+			}
+		}
+	}
+	for _, b := range fn.Blocks {
+		for i, instr := range b.Instrs {
+			st, ok := instr.(*ssa.Store)
+			if !ok {
+				continue
+			}
+			al, ok := st.Val.(*ssa.Alloc)
+			if !ok {
+				continue
+			}
+			if p, ok := al.Type().(*types.Pointer); !ok || !types.Identical(p.Elem(), msg) {
+				continue
+			}
+			dominated := false
+			for _, c := range calls[al] {
+				if (c.b == b && c.i < i) || (c.b != b && c.b.Dominates(b)) {
+					dominated = true
+				}
+			}
+			if !dominated {
+				return fmt.Sprintf("the %s stored at %s is not expanded on every path to that store ((*%s).expandComponents is called on it only conditionally, or not on this copy)", msg.Obj().Name(), fn.Prog.Fset.Position(st.Pos()).String(), msg.Obj().Name())
+			}
+		}
+	}
+	return ""
 }
